@@ -43,6 +43,11 @@ def plan(tier, seed):
                     reps = reps[0]
                 sel = min(k, 2) if has_sel else 1
                 jobs.append(dict(var, cmd=sp.name, shape=list(shape), k=k, reps=reps, kinds=kind, pts=2, sel=sel))
+    # constant fields with missing cells (Normalize divides by max - min = 0)
+    for sp in D.command_specs_cached().values():
+        if sp.name == 'Normalize':
+            for var in D.default_variants(sp, 'quick'):
+                jobs.append(dict(var, cmd=sp.name, shape=[3], k=1, reps='m', kinds='f', pts=2, sel=1, const_field=True))
     seen, out = set(), []
     for j in jobs:
         key = json.dumps(j, sort_keys=True)
